@@ -150,7 +150,7 @@ def run(chk, replay=None):
     chk.assume("TLC/SANY", "projection of chain terms in vf/ampl.py", "sympy CG/WignerD numeric evaluation (numeric law only)",
                "a transition's chain is identified through the model component named by the library's name generator")
     real = ampl_run.REAL_THOROUGH if tier == "thorough" else ampl_run.REAL_QUICK
-    cases = ampl_run.build_cases(chk, n_synth=600 if tier == "thorough" else 45, configs=configs, real=real, which={"formula"}, budget_s=900 if tier == "thorough" else 40)
+    cases = ampl_run.build_cases(chk, n_synth=600 if tier == "thorough" else 36, configs=configs, real=real, which={"formula"}, budget_s=900 if tier == "thorough" else 40)
     for label, reaction, cfg, model, rec in cases:
         if model is None:
             chk.violation(f"formulate-raises:{rec['error'].split(':')[0]}", f"formulate() failed for {label} cfg={cfg}: {rec['error']}", {"label": label})
@@ -188,7 +188,7 @@ def run(chk, replay=None):
             chk.spec_drift(f"dynamics factor shape not understood ({label}): {ex}")
             continue
         tid += 1
-        if tid >= (60 if tier == "thorough" else 14):
+        if tid >= (60 if tier == "thorough" else 10):
             break
     tvd = trace.validate("Trace_Dynamics", drecs, timeout=1500)
     chk.add_tlc("trace_lineshape_factors", tvd.res, traces=tid)
